@@ -41,7 +41,7 @@ impl<'tcx> Cx<'tcx> {
         match res {
             Res::Def(kind, did) => {
                 let mut v = vec![
-                    ("res", Json::s(format!("{:?}", kind_name(kind)))),
+                    ("res", Json::s(kind_name(kind))),
                     ("def", Json::s(self.tcx.def_path_str(did))),
                 ];
                 if let Some(val) = self.const_val(kind, did) {
